@@ -58,11 +58,48 @@ inductive TVal where
   | map (es : List (List Nat × TVal))
   deriving Repr, Inhabited
 
-/-- `{:?}` of a `str` for printable text: quotes, with `"` `\` and the usual controls escaped. -/
-def debugStr (bs : List Nat) : List Nat :=
-  34 :: bs.flatMap (fun b =>
-    if b == 34 then [92, 34] else if b == 92 then [92, 92] else if b == 10 then [92, 110]
-    else if b == 13 then [92, 114] else if b == 9 then [92, 116] else [b]) ++ [34]
+/-- Code points `impl Debug for str` writes as `\u{..}` — the same set as `debugEscapedCp` of
+`Model/Format.lean` (exact below U+0378: C0 / C1 controls, U+007F, U+00A0, U+00AD, the combining
+marks U+0300–U+036F; beyond that the space separators and format characters the generators
+produce: U+1680, U+2000–U+200F, U+2028–U+202F, U+205F–U+206F, U+3000, U+FEFF). -/
+def debugEscapedCp (n : Nat) : Bool :=
+  n < 0x20 || (0x7f ≤ n && n ≤ 0xa0) || n == 0xad || (0x300 ≤ n && n ≤ 0x36f) || n == 0x1680 ||
+  (0x2000 ≤ n && n ≤ 0x200f) || (0x2028 ≤ n && n ≤ 0x202f) || (0x205f ≤ n && n ≤ 0x206f) ||
+  n == 0x3000 || n == 0xfeff
+
+/-- `\u{<lower-case hex>}` as bytes -/
+def unicodeEscape (cp : Nat) : List Nat :=
+  [92, 117, 123] ++ (Nat.toDigits 16 cp).map Char.toNat ++ [125]
+
+/-- one character (code point `cp`, UTF-8 bytes `bs`) under `char::escape_debug` inside a `str` -/
+def debugChar (cp : Nat) (bs : List Nat) : List Nat :=
+  if cp == 34 then [92, 34] else if cp == 92 then [92, 92] else if cp == 10 then [92, 110]
+  else if cp == 13 then [92, 114] else if cp == 9 then [92, 116] else if cp == 0 then [92, 48]
+  else if debugEscapedCp cp then unicodeEscape cp else bs
+
+/-- the characters of a UTF-8 byte string, each through `debugChar` (a byte that does not start a
+well-formed sequence — impossible in a `str` — is copied) -/
+def debugBytes : List Nat → List Nat
+  | [] => []
+  | b :: rest =>
+    if b < 0x80 then debugChar b [b] ++ debugBytes rest
+    else if b < 0xE0 then
+      match rest with
+      | c1 :: r => debugChar ((b % 32) * 64 + c1 % 64) [b, c1] ++ debugBytes r
+      | [] => [b]
+    else if b < 0xF0 then
+      match rest with
+      | c1 :: c2 :: r => debugChar ((b % 16) * 4096 + (c1 % 64) * 64 + c2 % 64) [b, c1, c2] ++ debugBytes r
+      | r => b :: r
+    else
+      match rest with
+      | c1 :: c2 :: c3 :: r =>
+        debugChar ((b % 8) * 262144 + (c1 % 64) * 4096 + (c2 % 64) * 64 + c3 % 64) [b, c1, c2, c3] ++ debugBytes r
+      | r => b :: r
+
+/-- `{:?}` of a `str` (`impl Debug for str`): quotes, backslash escapes for `"` `\` newline, CR,
+tab, NUL, `\u{..}` for the code points of `debugEscapedCp`, everything else as is. -/
+def debugStr (bs : List Nat) : List Nat := 34 :: debugBytes bs ++ [34]
 
 mutual
 /-- `Value::format` (untagged bytes). -/
@@ -163,6 +200,26 @@ def asciiUpper (b : Nat) : Nat := if 97 ≤ b ∧ b ≤ 122 then b - 32 else b
 def asciiLower (b : Nat) : Nat := if 65 ≤ b ∧ b ≤ 90 then b + 32 else b
 def isWs (b : Nat) : Bool := b == 32 || b == 9 || b == 10 || b == 13 || b == 12 || b == 11
 
+/-- characters of a UTF-8 byte string: a continuation byte joins the group before it -/
+def byteChars : List Nat → List (List Nat)
+  | [] => []
+  | b :: rest =>
+    match rest, byteChars rest with
+    | b1 :: _, g :: gs => if isCont b1 then (b :: g) :: gs else [b] :: g :: gs
+    | _, gs => [b] :: gs
+
+/-- `char::is_whitespace` (the Unicode `White_Space` property) on the UTF-8 bytes of one character:
+U+0009–U+000D, U+0020, U+0085, U+00A0, U+1680, U+2000–U+200A, U+2028, U+2029, U+202F, U+205F,
+U+3000 -/
+def isWsChar : List Nat → Bool
+  | [b] => isWs b
+  | [0xC2, c] => c == 0x85 || c == 0xA0
+  | [0xE1, 0x9A, 0x80] => true
+  | [0xE2, 0x80, c] => (0x80 ≤ c && c ≤ 0x8A) || c == 0xA8 || c == 0xA9 || c == 0xAF
+  | [0xE2, 0x81, 0x9F] => true
+  | [0xE3, 0x80, 0x80] => true
+  | _ => false
+
 def replaceLoop (pat to : List Nat) : Nat → List Nat → List Nat
   | 0, bs => bs
   | _ + 1, [] => []
@@ -170,12 +227,12 @@ def replaceLoop (pat to : List Nat) : Nat → List Nat → List Nat
     if pat.isPrefixOf (b :: rest) then to ++ replaceLoop pat to fuel ((b :: rest).drop pat.length)
     else b :: replaceLoop pat to fuel rest
 
-/-- Text functions (ASCII case mapping and ASCII white space: the harness keeps cased and
-white-space characters of the data inside ASCII; an empty `replace` pattern is not used). -/
+/-- Text functions (ASCII case mapping: the harness keeps cased characters of the data inside
+ASCII; `trim` strips Unicode white space like `str::trim`; an empty `replace` pattern is not used). -/
 def StrFn.apply : StrFn → List Nat → List Nat
   | .upper, bs => bs.map asciiUpper
   | .lower, bs => bs.map asciiLower
-  | .trim, bs => ((bs.dropWhile isWs).reverse.dropWhile isWs).reverse
+  | .trim, bs => (((byteChars bs).dropWhile isWsChar).reverse.dropWhile isWsChar).reverse.flatten
   | .escapeHtml, bs => Tera.Escape.escapeHtml bs
   | .replace pat to, bs => if pat.isEmpty then bs else replaceLoop pat to (bs.length + 1) bs
 
